@@ -2,7 +2,7 @@
 import re
 
 from .lib import PLUMBING, callee_allow, closure_args_of_call, lit_strs, operand_local, switches_on_value
-from .lib_c08 import Flow, Origins, map_stores, mutators, field_reads, field_writes, gen_role, root_of
+from .lib_c08 import Flow, Origins, _rv_operands, map_stores, mutators, field_reads, field_writes, gen_role, root_of
 
 LEVEL = "other"
 TECHNIQUE = ("static analysis: source/sink flow and per-iteration edge dominance on gen_openapi's MIR, sibling agreement between the document iterator and the router, "
@@ -601,14 +601,22 @@ def r3_placement(ctx):
         edges = [(sb, g.bool_edges(sb)[0]) for sb, st in switches_on_value(g, t["dest"]["l"])]
         tests.append({"lit": sorted(lit[0][1].lits)[0], "other": other, "bb": bb, "edges": [(sb, tb) for sb, tb in edges if tb is not None]})
     seen = {}
+    # places where a PathItem slot is selected: `&mut pathitem.<slot>` (a borrow later written through) or a direct store `pathitem.<slot> = ..`
+    sel = []
+    live0 = g.reachable(0)
     for bb, i, st in g.stmts():
-        rv = st["rv"]
-        if rv["rv"] != "ref" or not rv.get("mut") or bb not in g.reachable(0):
+        if bb not in live0:
             continue
-        fs = m.tw.fields_of_place(g, rv["pl"])
+        rv = st["rv"]
+        if rv["rv"] == "ref" and rv.get("mut"):
+            sel.append((bb, rv["pl"]))
+        elif st["pl"]["p"]:
+            sel.append((bb, st["pl"]))
+    for bb, pl in sel:
+        fs = m.tw.fields_of_place(g, pl)
         if not fs or fs[-1][0] != "openapiv3::PathItem" or fs[-1][2] not in slots:
             continue
-        last = rv["pl"]["p"][-1]
+        last = pl["p"][-1]
         if not (isinstance(last, dict) and "f" in last):
             continue
         slot = fs[-1][2]
@@ -657,6 +665,12 @@ def r3_placement(ctx):
         if hit and len(t["args"]) > 1:
             reps.append((bb, t["args"][1], o, hit))
     by_bb = {}
+    for sbb, i_, st_ in g.stmts():      # `pathitem.<slot> = Some(operation)` in each arm
+        if sbb in live0 and st_["pl"]["p"] and isinstance(st_["pl"]["p"][-1], dict) and "f" in st_["pl"]["p"][-1]:
+            fs = m.tw.fields_of_place(g, st_["pl"])
+            if fs and fs[-1][0] == "openapiv3::PathItem" and fs[-1][2] in slots:
+                e = by_bb.setdefault(sbb, {"hit": set(), "node": {"pl": {"l": st_["pl"]["l"], "p": ["*"]}}, "vals": _rv_operands(st_["rv"])})
+                e["hit"].add(fs[-1][2])
     for sbb, kind, node, tgt, vals in mutators(g):
         if kind != "store" or sbb not in g.reachable(0) or node["pl"]["p"] != ["*"]:
             continue
@@ -667,24 +681,29 @@ def r3_placement(ctx):
     for sbb, e in sorted(by_bb.items()):
         if e["vals"]:
             reps.append((sbb, e["vals"][0], m.flow.origins(g, {"k": "copy", "pl": {"l": e["node"]["pl"]["l"], "p": []}}), e["hit"]))
-    ctx.check(R, "one-operation-store", len(reps) == 1, "sites storing the operation into a PathItem slot: %d" % len(reps), g, nontrivial=False)
+    ctx.check(R, "one-operation-store", len(reps) >= 1, "sites storing the operation into a PathItem slot: %d" % len(reps), g, nontrivial=False)
     opw = [(bb, ops) for adt, var, field, kind, bb, ops in field_writes(g, m.tw, lambda a: a == "openapiv3::Operation") if field == "operation_id" and bb in g.reachable(0)]
-    for bb, vop, o, hit in reps:
-        ctx.check(R, "store-slot-from-table", hit == set(slots) and (ebb is None or (g.id, ebb) in o.call_sites),
-                  "the slot written is one of the table's %d slots of the PathItem obtained from paths.entry(path): slots %s" % (len(slots), sorted(hit)), (g, bb))
+    oploc = set()
+    for wbb, ops in opw:
+        for st in g.blocks[wbb]["st"]:
+            if st["s"] == "assign" and st["pl"]["p"] and isinstance(st["pl"]["p"][-1], dict) and st["pl"]["p"][-1].get("n") == "operation_id":
+                oploc.add(st["pl"]["l"])
+    if reps:
+        allhit = set()
+        for bb, vop, o, hit in reps:
+            allhit |= hit
+        bb0_, vop0, o0, hit0 = reps[0]
+        from_entry = all(ebb is None or (g.id, ebb) in o.call_sites for bb, vop, o, hit in reps)
+        ctx.check(R, "store-slot-from-table", allhit == set(slots) and from_entry,
+                  "the slot written is one of the table's %d slots of the PathItem obtained from paths.entry(path): slots %s" % (len(slots), sorted(allhit)), (g, bb0_))
         start = _published_start(m)
         if start is not None:
             how, sb, pub = start
-            lost = nbb in g.reachable(pub, avoid=[bb])
+            lost = nbb in g.reachable(pub, avoid=[bb for bb, vop, o, hit in reps])
             ctx.check(R, "operation-always-stored", not lost, "every non-panicking path of an iteration for a published endpoint (%s) stores the operation: %s" % (
-                "after the in-loop `visible` test" if how == "guard" else "the iterator is filtered on `visible`", not lost), (g, bb))
-        oploc = set()
-        for wbb, ops in opw:
-            for st in g.blocks[wbb]["st"]:
-                if st["s"] == "assign" and st["pl"]["p"] and st["pl"]["p"][-1].get("n") == "operation_id" if isinstance(st["pl"]["p"][-1], dict) else False:
-                    oploc.add(st["pl"]["l"])
-        ok = bool(oploc) and any(g.slice(vop).touches_local(l) for l in oploc)
-        ctx.check(R, "stored-value-is-the-operation", ok, "the value stored is the Operation whose operation_id was set: %s" % ok, (g, bb))
+                "after the in-loop `visible` test" if how == "guard" else "the iterator is filtered on `visible`", not lost), (g, bb0_))
+        ok = bool(oploc) and all(any(g.slice(vop).touches_local(l) for l in oploc) for bb, vop, o, hit in reps)
+        ctx.check(R, "stored-value-is-the-operation", ok, "the value stored is the Operation whose operation_id was set: %s" % ok, (g, bb0_))
     ctx.check(R, "one-operation-id-write", len(opw) == 1, "writes to Operation.operation_id: %d" % len(opw), g, nontrivial=False)
     for bb, ops in opw:
         o = Origins()
@@ -700,18 +719,16 @@ def r3_placement(ctx):
 
 
 # --------------------------------------------------------------------------- R4
-def _schema_flushes(m):
-    """Every store into components.schemas under gen_openapi (insert / entry().or_insert*; in a `for` loop of gen_openapi
-    or in the closure of a `for_each`): [(anchor block in gen_openapi, origins of the stored key and value)].
-    The anchor is the block that must lie on every path to return for the flush to happen: the loop head
-    (Iterator::next feeding the stored key) or the adaptor call that receives the closure."""
+def _map_flushes(m, owner_field):
+    """Every store into the document map `owner_field` under gen_openapi (insert / entry().or_insert*; in a `for` loop of
+    gen_openapi or in the closure of a `for_each`): dicts with the anchor blocks in gen_openapi, the origins of the stored
+    key and value, and the site.  The anchor is the block that must lie on every path to return for the flush to
+    happen: the loop head (Iterator::next feeding the stored key) or the adaptor call that receives the closure."""
     g = m.gen
     out = []
     for f in m.region:
-        for bb, kop, vop in map_stores(m.flow, f, ("openapiv3::Components", "schemas")):
-            o = Origins()
-            o.update(m.flow.origins(f, kop))
-            o.update(m.flow.origins(f, vop))
+        for bb, kop, vop in map_stores(m.flow, f, owner_field):
+            ko, vo = m.flow.origins(f, kop), m.flow.origins(f, vop)
             anchors = []
             if f.id == g.id:
                 anchors = [nb for c, nb, nt in g.slice(kop).calls(r"iter::Iterator::next$")]
@@ -726,7 +743,17 @@ def _schema_flushes(m):
                         anchors = [cbb for cbb, ct, k in m.flow.closure_receivers(p_, pst)]
                         break
                     cur = p_
-            out.append((anchors, o, (f, bb)))
+            out.append({"anchors": anchors, "ko": ko, "vo": vo, "f": f, "bb": bb, "kop": kop, "vop": vop})
+    return out
+
+
+def _schema_flushes(m):
+    out = []
+    for x in _map_flushes(m, ("openapiv3::Components", "schemas")):
+        o = Origins()
+        o.update(x["ko"])
+        o.update(x["vo"])
+        out.append((x["anchors"], o, (x["f"], x["bb"])))
     return out
 
 
@@ -773,12 +800,28 @@ def r4_refs_resolve(ctx):
             gn_t = f.switch_target(sb, idx.get("Gen"))
             scrut = m.flow.origins(f, {"k": "copy", "pl": info["place"]})
             # Static arm
+            # `definitions.extend(dependencies.clone())`, or a loop inserting every dependency: any call that is given the side
+            # table mutably together with a value that comes from the arm's `dependencies`
             exts = []
-            for ebb, et in f.live_calls(r"iter::Extend::extend$"):
-                o0 = m.flow.origins(f, et["args"][0])
-                o1 = m.flow.origins(f, et["args"][1])
-                if (g.id, D) in o0.locals and (ASG, "dependencies") in o1.fields and f.edge_dominates(sb, st_t, ebb):
-                    exts.append(ebb)
+            for ebb, et in f.live_calls():
+                if len(et["args"]) < 2 or not f.edge_dominates(sb, st_t, ebb):
+                    continue
+                if (g.id, D) not in m.flow.origins(f, et["args"][0]).locals:
+                    continue
+                if not any((ASG, "dependencies") in m.flow.origins(f, a).fields for a in et["args"][1:]):
+                    continue
+                heads = set()
+                for a in et["args"][1:]:
+                    for c, nb, nt in f.slice(a).calls(r"iter::Iterator::next$"):
+                        if f.edge_dominates(sb, st_t, nb):
+                            heads.add((nb, nt["dest"]["l"]))
+                if not heads:
+                    exts.append(ebb)            # whole-collection form
+                    continue
+                for nb, item in heads:         # element-wise form: anchored at the loop head, the insertion unconditional in the body
+                    some = _some_target(f, {"dest": {"l": item}})
+                    if some is not None and nb not in f.reachable(some, avoid=[ebb]):
+                        exts.append(nb)
             ok = False
             detail = "no definitions.extend(dependencies) on the Static arm"
             if exts:
@@ -787,7 +830,7 @@ def r4_refs_resolve(ctx):
                 rets = [b for b in f.returns() if b in r]
                 back = m.next is not None and f.id == g.id and m.next[0] in r
                 ok = not uses and not rets and not back
-                detail = "definitions.extend(dependencies.clone()) lies on every path from the Static arm to a use of the converted schema / the end of the arm: %s" % ok
+                detail = "recording the arm's `dependencies` in `definitions` lies on every path from the Static arm to a use of the converted schema / the end of the arm: %s" % ok
             ctx.check(R, "static-deps-recorded:%s" % _role(f), ok, detail, (f, sb))
             # Gen arm
             if gn_t is not None and gn_t != st_t and not f.is_diverging(gn_t):
@@ -821,20 +864,15 @@ def r4_refs_resolve(ctx):
         ctx.check(R, "error-reference-names-stored-name", bool(common) and isref,
                   "ErrorResponse.reference is a Reference formatted from the same `name` local that is stored as ErrorResponse.name: shared locals %s" % [f.local_name(l) for l in common], (f, bb))
     if er_adt:
-        ins = []
-        for bb, t in g.live_calls(r"indexmap::IndexMap::<K, V, S>::insert$"):
-            o0 = m.flow.origins(g, t["args"][0])
-            if ("openapiv3::Components", "responses") in o0.fields and (g.id, m.doc) in o0.locals:
-                ins.append((bb, t))
-        ctx.check(R, "error-responses-stored", len(ins) == 1, "components.responses.insert sites: %d" % len(ins), g, nontrivial=False)
-        for bb, t in ins:
-            k = m.flow.origins(g, t["args"][1])
-            v = m.flow.origins(g, t["args"][2])
-            ok = (er_adt, "name") in k.fields and (er_adt, "response") in v.fields and not _between(g, t["args"][1]) and k.call_sites & v.call_sites
-            ctx.check(R, "error-response-stored-under-its-name", bool(ok), "components.responses[ErrorResponse.name] = ErrorResponse.response of the same entry: %s" % bool(ok), (g, bb))
-            # the loop over error_responses is reached on every path to return
-            heads = [b for (fid, b) in k.call_sites if fid == g.id and re.search(r"IntoIterator::into_iter$", g.blocks[b]["term"].get("callee") or "")]
-            ctx.check(R, "error-responses-flushed", bool(heads) and all(g.must_pass([b]) for b in heads), "the loop storing error responses runs on every path to return", (g, bb))
+        ins = _map_flushes(m, ("openapiv3::Components", "responses"))
+        ctx.check(R, "error-responses-stored", len(ins) == 1, "stores into components.responses: %d" % len(ins), g, nontrivial=False)
+        for x in ins:
+            k, v, f_ = x["ko"], x["vo"], x["f"]
+            ok = (er_adt, "name") in k.fields and (er_adt, "response") in v.fields and not _between(f_, x["kop"]) and k.call_sites & v.call_sites
+            ctx.check(R, "error-response-stored-under-its-name", bool(ok), "components.responses[ErrorResponse.name] = ErrorResponse.response of the same entry: %s" % bool(ok), (f_, x["bb"]))
+            # the loop (or for_each) over error_responses is reached on every path to return
+            mp = bool(x["anchors"]) and g.must_pass(x["anchors"])
+            ctx.check(R, "error-responses-flushed", mp, "the loop storing error responses runs on every path to return: %s" % mp, (f_, x["bb"]))
         # the error reference goes under both the 4xx and the 5xx range (two inserts, or one insert in a loop over [4, 5])
         refs = []
         for bb, kop, vop in map_stores(m.flow, g, ("openapiv3::Responses", "responses")):
